@@ -330,17 +330,24 @@ def rule_top_two(ctx):
     of the three values."""
     from . import orders
     tu = cfront.load_tu('particle.c')
-    fn = tu.func('reb_simulation_add')
+    from .. import normal
+    fns = normal.with_new_helpers(tu, 'reb_simulation_add')
     target = None
-    for st in cfront.body(fn).get('inner', []):
-        if st.get('kind') == 'IfStmt':
-            assigned = sorted({orders._path(e['inner'][0]) for e in walk(st) if is_assign(e) and strip(e['inner'][0]).get('kind') == 'MemberExpr'})
-            if len(assigned) == 2 and all('radius' in a for a in assigned):
-                target = (st, assigned)
+    # the update stands in reb_simulation_add as an if/else, or is the whole body of a helper split off from it
+    frags = [(st, None) for st in cfront.body(tu.func('reb_simulation_add')).get('inner', []) if st.get('kind') == 'IfStmt']
+    frags += [(cfront.body(h), h) for h in fns if h['name'] != 'reb_simulation_add']
+    for st, h in frags:
+        assigned = sorted({orders._path(e['inner'][0]) for e in walk(st) if is_assign(e) and strip(e['inner'][0]).get('kind') == 'MemberExpr'})
+        if len(assigned) == 2 and all('radius' in a for a in assigned):
+            target = (st, assigned, h)
     anchor(target is not None, 'reb_simulation_add: if/else that maintains the two largest radii')
-    st, (m_a, m_b) = target
+    st, (m_a, m_b), h = target
     reads = sorted({orders._path(e) for e in walk(st) if e.get('kind') == 'MemberExpr' and strip(e).get('kind') == 'MemberExpr'} - {m_a, m_b})
     reads = [r_ for r_ in reads if not any(r_ == x.rsplit('.', 1)[0] for x in (m_a, m_b))]
+    if h is not None:
+        # in a helper the new value arrives as a parameter
+        reads += sorted({p_['name'] for p_ in cfront.params(h) if 'double' in qtype(p_) and '*' not in qtype(p_)
+                         and any(x.get('kind') == 'DeclRefExpr' and x['referencedDecl'].get('name') == p_['name'] for x in walk(st))})
     anchor(len(reads) == 1, 'reb_simulation_add: one new value is compared with the two maxima (%s)' % reads)
     v = reads[0]
     n = 0
@@ -399,14 +406,28 @@ def rule_per_particle_terms(ctx):
                     return True
         return False
     n = 0
+    tables = {}
     for st in walk(cfront.body(fn)):
         if st.get('kind') == 'VarDecl' and 'init' in st and st.get('name') != ret:
             init = [c for c in st.get('inner', []) if c.get('kind') not in ('FullComment',)]
+            if init and '[' in qtype(st) and strip(init[-1]).get('kind') == 'InitListExpr':
+                tables[st['name']] = [c for c in strip(init[-1]).get('inner', []) if isinstance(c, dict) and c.get('kind')]
+                continue
             if init and dep(init[-1]):
                 tainted.add(st['name'])
         elif is_assign(st) and render(st['inner'][0]) == ret:
-            n += 1
             rhs = st['inner'][1]
+            r0_ = strip(rhs, casts=True)
+            if r0_.get('kind') == 'ArraySubscriptExpr' and strip(r0_['inner'][0], casts=True).get('kind') == 'DeclRefExpr' \
+                    and strip(r0_['inner'][0], casts=True)['referencedDecl']['name'] in tables:
+                # the criteria stand in a local table that a loop folds into the result: every entry is a term
+                for el in tables[strip(r0_['inner'][0], casts=True)['referencedDecl']['name']]:
+                    n += 1
+                    if not dep(el) and not all(y.get('kind') != 'DeclRefExpr' for y in walk(el)):
+                        ctx.report('R13.10', 'dcrit:term:%s' % line_of(el), 'src/integrator_mercurius.c:%s %s' % (line_of(el), fn['name']),
+                                   'the criterion accumulated here (%s) does not depend on particle %s: it is the same value for every particle (a quantity of another body - e.g. the star\'s radius in place of the body\'s own)' % (render(el)[:90], ivar))
+                continue
+            n += 1
             if not dep(rhs):
                 lits = all(y.get('kind') != 'DeclRefExpr' or y['referencedDecl']['name'] == ret for y in walk(rhs))
                 if lits:
